@@ -23,6 +23,7 @@ from .load_error import (
     MultipleBadVariantLoadError,
     OutOfRangeLoadError,
     TypeLoadError,
+    ValueLoadError,
 )
 from .request_cls import DumperRequest, LoaderRequest, StrictCoercionRequest
 
@@ -288,9 +289,11 @@ class FlagByExactValueProvider(BaseFlagProvider):
             if data < 0 or data > flag_mask:
                 raise OutOfRangeLoadError(0, flag_mask, data)
 
-            # data already has been validated for all edge cases
-            # so enum lookup cannot raise an error
-            return enum(data)
+            try:
+                return enum(data)
+            except ValueError as e:
+                # the value is in range, but holds a bit that is declared only as a part of a multi-bit member
+                raise ValueLoadError(str(e), data)
 
         return flag_loader
 
